@@ -17,7 +17,7 @@ BOUNDS = {
     "quick": dict(processes="sysenv + 2", flows="every multiset of 1..2 flows and every third multiset of 3 flows over the 6 ordered process pairs (parallel and opposing included)",
                   flow_dims="3 rotating assignments of dimension subsets/orders from {t,a,b}", stocks="none / at p1 / at sysenv / without process / two",
                   modes="raise_error x {explicit symbolic tolerance, default tolerance}", lengths="t2 a2 b2"),
-    "thorough": dict(processes="sysenv + 3", flows="multisets of 1..4 flows over 12 pairs (structured subset of those with 4)", flow_dims="4 assignments", stocks="as quick + stock at p2",
+    "thorough": dict(processes="sysenv + 3", flows="multisets over 12 ordered pairs: all of size <= 2, every third of size 3, every 29th of size 4", flow_dims="4 assignments", stocks="as quick + stock at p2",
                      modes="as quick", lengths="t2 a2 b2"),
 }
 OPTS = {"quick": dict(shadow_every=40, max_paths=600, timeout_ms=40000), "thorough": dict(shadow_every=300, max_paths=600, timeout_ms=30000)}
@@ -39,7 +39,7 @@ def configs(tier, seed):
     procs = ["sysenv", "p1", "p2"] if tier == "quick" else ["sysenv", "p1", "p2", "p3"]
     fsets = _flowsets(procs, 3 if tier == "quick" else 4)
     if tier == "thorough":
-        fsets = [f for i, f in enumerate(fsets) if len(f) < 4 or i % 7 == 0]
+        fsets = [f for i, f in enumerate(fsets) if len(f) < 3 or (len(f) == 3 and i % 3 == 0) or (len(f) == 4 and i % 29 == 0)]
     else:
         fsets = [f for i, f in enumerate(fsets) if len(f) < 3 or i % 3 == 0]
     stockcfgs = [[], ["p1"], ["sysenv"], [None], ["p1", None]] + ([["p2", "p1"]] if tier == "thorough" else [])
